@@ -8,6 +8,7 @@ import (
 	"net"
 	"net/http"
 	"os"
+	"strings"
 	"time"
 )
 
@@ -297,3 +298,33 @@ func (c *Client) Leftover() []byte {
 	}
 	return out
 }
+
+// ReadHead reads one response head line by line (status line, header lines up to the empty line) without
+// interpreting it, and reports how reading ended (EndOK or one of the End* constants). It is used where
+// net/http's framing rules do not apply (the answer to CONNECT).
+func (c *Client) ReadHead() (lines []string, end string) {
+	c.rec.lastErr = nil
+	for {
+		l, err := c.br.ReadString('\n')
+		if err != nil {
+			if l != "" {
+				lines = append(lines, l)
+			}
+			e := c.classify(err)
+			if e == EndEOF && len(lines) > 0 {
+				e = EndUnexpEOF
+			}
+			return lines, e
+		}
+		if l == "\r\n" || l == "\n" {
+			return lines, EndOK
+		}
+		lines = append(lines, strings.TrimRight(l, "\r\n"))
+		if len(lines) > 200 {
+			return lines, EndMalformed
+		}
+	}
+}
+
+// Buffered returns the number of bytes received but not yet consumed by the parser.
+func (c *Client) Buffered() int { return c.br.Buffered() }
